@@ -130,6 +130,25 @@ pub trait Scenario: Sync {
     /// Run the case against the REAL code and the reference model.
     fn execute(&self, case: &Self::Case, obs: &mut Obs) -> Result<(), Failure>;
 
+    /// Every failure of the case (default: the single one `execute` reports).
+    /// Used to decide which known findings still reproduce.
+    fn all_failures(&self, case: &Self::Case) -> Vec<Failure> {
+        let mut obs = Obs::new(self.reach_names(), self.fault_names());
+        match catch_unwind(AssertUnwindSafe(|| self.execute(case, &mut obs))) {
+            Ok(Ok(())) => Vec::new(),
+            Ok(Err(f)) => vec![f],
+            Err(_) => {
+                let msg = take_last_panic().unwrap_or_else(|| "<unknown panic>".into());
+                let head = msg.split(" @ ").next().unwrap_or("").to_string();
+                vec![Failure {
+                    class: format!("panic:{}", normalise(&head)),
+                    seq: obs.ops as usize,
+                    detail: json!({ "panic": msg }),
+                }]
+            }
+        }
+    }
+
     /// Whether a run counts as non-trivial for `distinct_nontrivial`.
     fn nontrivial(&self, case: &Self::Case, obs: &Obs) -> bool;
 
@@ -142,6 +161,10 @@ pub trait Scenario: Sync {
     /// Human-readable rendering for evidence samples.
     fn sample(&self, case: &Self::Case) -> Value;
     fn rule(&self) -> String;
+    /// Extra keys merged into `coverage` (e.g. `exhaustive`).
+    fn extra_coverage(&self) -> Value {
+        json!({})
+    }
     fn real_vs_stub(&self) -> Value;
     fn assumptions(&self) -> Vec<String>;
 }
@@ -667,6 +690,13 @@ pub fn write_replay<S: Scenario>(
     path
 }
 
+/// All failures of the case stored in a replay file.
+pub fn replay_all<S: Scenario>(s: &S, text: &str) -> Result<Vec<Failure>, String> {
+    let rf: ReplayFile<S::Case> = serde_json::from_str(text).map_err(|e| e.to_string())?;
+    install_quiet_panic_hook();
+    Ok(s.all_failures(&rf.case))
+}
+
 /// Re-execute a replay file. Returns the failure if it recurs.
 pub fn replay<S: Scenario>(s: &S, text: &str) -> Result<Option<Failure>, String> {
     let rf: ReplayFile<S::Case> = serde_json::from_str(text).map_err(|e| e.to_string())?;
@@ -715,6 +745,11 @@ pub fn write_evidence<S: Scenario>(
         "exhaustive": false,
     });
     if let (Value::Object(c), Value::Object(e)) = (&mut coverage, extra) {
+        for (k, v) in e {
+            c.insert(k, v);
+        }
+    }
+    if let (Value::Object(c), Value::Object(e)) = (&mut coverage, s.extra_coverage()) {
         for (k, v) in e {
             c.insert(k, v);
         }
